@@ -214,7 +214,7 @@ class NormalMessage(AbstractMessage):
     @property
     def natural(self):
         return NaturalNormal.from_natural_parameters(
-            self.natural_parameters * 0.0, **self._init_kwargs
+            self.natural_parameters, **self._init_kwargs
         )
 
     def zeros_like(self) -> "AbstractMessage":
